@@ -175,7 +175,9 @@ fn canon_byte(class: &str) -> u8 {
     }
 }
 
-pub fn prefix_conformance<S: ScancodeSet + Clone + PartialEq + std::fmt::Debug>(ctx: &mut Ctx, set: u8, mk: fn() -> S) {
+/// `with_tables`: also require the event of a LOOKUP edge to be the key R-SET assigns (C01/C02); without it only
+/// the automaton is judged - a LOOKUP edge must yield *some* event or error (C07, which is table-free)
+pub fn prefix_conformance<S: ScancodeSet + Clone + PartialEq + std::fmt::Debug>(ctx: &mut Ctx, set: u8, mk: fn() -> S, with_tables: bool) {
     let spec = if set == 2 { "Set2Prefix" } else { "Set1Prefix" };
     let comp = if set == 2 { "set2" } else { "set1" };
     let Some((g, distinct)) = run_tlc(ctx, spec) else { return };
@@ -222,7 +224,11 @@ pub fn prefix_conformance<S: ScancodeSet + Clone + PartialEq + std::fmt::Debug>(
             if rust_allowed != allowed {
                 ref_disagree += 1;
             }
-            let ok_out = matches!(&r, Ok(x) if allowed.admits(x));
+            let ok_out = if with_tables || out_next == "none" {
+                matches!(&r, Ok(x) if allowed.admits(x))
+            } else {
+                matches!(&r, Ok(x) if !matches!(x, Ok(None)))
+            };
             // state conformance: the real state after this edge must be the real state at the canonical path of the target
             let ok_state = d == dst || (0..=255u8).all(|p| {
                 let (mut x, mut y) = (d.clone(), dst.clone());
@@ -240,7 +246,7 @@ pub fn prefix_conformance<S: ScancodeSet + Clone + PartialEq + std::fmt::Debug>(
                     &format!(
                         "{}: the real decoder does not implement the TLA+ model {}: in model state ({}) byte 0x{:02X} must {} but the code gives {}{}",
                         comp, spec, la.replace('\n', " "), byte,
-                        if out_next == "none" { "be swallowed as a prefix (Ok(None))".to_string() } else { format!("give {} and return to the initial state", allowed.text()) },
+                        if out_next == "none" { "be swallowed as a prefix (Ok(None))".to_string() } else if with_tables { format!("give {} and return to the initial state", allowed.text()) } else { "complete the sequence (an event or an error) and return to the initial state".to_string() },
                         obs, if ok_out { " and is left in a state that differs from the model's successor state" } else { "" }
                     ),
                     Replay::one(comp, ops, &allowed.text(), Some(obs)),
@@ -370,9 +376,9 @@ pub fn mods_conformance(ctx: &mut Ctx) {
     );
 }
 
-pub fn set2_conformance(ctx: &mut Ctx) {
-    prefix_conformance::<ScancodeSet2>(ctx, 2, ScancodeSet2::new);
+pub fn set2_conformance(ctx: &mut Ctx, with_tables: bool) {
+    prefix_conformance::<ScancodeSet2>(ctx, 2, ScancodeSet2::new, with_tables);
 }
-pub fn set1_conformance(ctx: &mut Ctx) {
-    prefix_conformance::<ScancodeSet1>(ctx, 1, ScancodeSet1::new);
+pub fn set1_conformance(ctx: &mut Ctx, with_tables: bool) {
+    prefix_conformance::<ScancodeSet1>(ctx, 1, ScancodeSet1::new, with_tables);
 }
